@@ -27,7 +27,8 @@ TRUSTED_BASE = [
     "the hand-written correspondence harness (/verif/harness/*), its canonicalisation and /verif/check",
     "rustc/std and the third-party crates the code delegates to",
 ]
-BAD_TOKENS = re.compile(r"\bsorry\b|\badmit\b|^axiom |native_decide|bv_decide|implemented_by|\bunsafe |maxHeartbeats 0", re.M)
+# `admit` only as a standalone tactic (the policy models have a function called `admit`)
+BAD_TOKENS = re.compile(r"\bsorry\b|(?:^|[\s;(])(?<!\| )admit[ \t]*(?:$|;|<;>)|^axiom |native_decide|bv_decide|implemented_by|\bunsafe |maxHeartbeats 0", re.M)
 
 
 def sh(cmd, cwd=None, env=None, timeout=None, input=None):
@@ -109,6 +110,8 @@ class Ctx:
             msg = (out + err)[-3000:]
             self.proof_failures.append({"module": module, "error": "lake build failed", "log": msg})
             return False
+        if "declaration uses 'sorry'" in out + err or "declaration uses `sorry`" in out + err:
+            self.proof_failures.append({"module": module, "error": "a declaration uses sorry", "log": (out + err)[-2000:]})
         # forbidden tokens in every file of the development
         for root, _, files in os.walk(os.path.join(LEAN, "Fv")):
             for f in files:
